@@ -275,8 +275,8 @@ fn project_sheet(ws: &Worksheet) -> SheetProj {
                     ("equal-average", b(r.get_equal_average())),
                     ("time-period", time_period_name(r.get_time_period()).to_string()),
                     ("color-scale", r.get_color_scale().map_or("none".to_string(), |o| vis(o.get_cfvo_collection(), o.get_color_collection()))),
-                    ("data-bar", r.get_data_bar().map_or("none".to_string(), |o| vis(o.get_cfvo_collection(), o.get_color_collection()))),
                     ("icon-set", r.get_icon_set().map_or("none".to_string(), |o| vis(o.get_cfvo_collection(), o.get_color_collection()))),
+                    ("data-bar", r.get_data_bar().map_or("none".to_string(), |o| vis(o.get_cfvo_collection(), o.get_color_collection()))),
                 ],
             ));
         }
@@ -949,10 +949,13 @@ fn label(spec: &AnnotWb, obs: &mut Obs) {
     obs.nontrivial(nt);
 }
 
-fn check(case: &Case, obs: &mut Obs) -> Verdict {
+/// `rounds`: how often the same workbook is saved and reloaded.  Every save is judged on its
+/// own; more than one round is used where the library's result may differ from save to save
+/// (anything gathered through a HashMap), so that a defect that shows with probability p per
+/// save is seen with probability 1-(1-p)^rounds per case.
+fn check_rounds(case: &Case, obs: &mut Obs, rounds: usize) -> Verdict {
     let spec = &case.wb;
     label(spec, obs);
-    let t0 = std::time::Instant::now();
     let book = match guard(|| build(spec)) {
         Ok(b) => b,
         Err(p) => return Verdict::Discard(format!("build panicked: {}", p.short())),
@@ -961,28 +964,36 @@ fn check(case: &Case, obs: &mut Obs) -> Verdict {
     if let Err(e) = spec_agrees(spec, &exp) {
         return Verdict::Discard(format!("pre-save model mismatch: {}", e));
     }
-    let t1 = std::time::Instant::now();
-    let bytes = match guard(|| save(&book, case.light)) {
-        Ok(Ok(b)) => b,
-        Ok(Err(e)) => return Verdict::fail("save/error", e),
-        Err(p) => return Verdict::fail(format!("save/panic:{}", p.site()), p.short()),
-    };
-    let t2 = std::time::Instant::now();
     let mut fails = Fails::new();
-    match guard(|| load(&bytes)) {
-        Ok(Ok(loaded)) => {
-            let got = project(&loaded);
-            fails.extend(diff(&exp, &got));
+    for _ in 0..rounds {
+        let bytes = match guard(|| save(&book, case.light)) {
+            Ok(Ok(b)) => b,
+            Ok(Err(e)) => return Verdict::fail("save/error", e),
+            Err(p) => return Verdict::fail(format!("save/panic:{}", p.site()), p.short()),
+        };
+        match guard(|| load(&bytes)) {
+            Ok(Ok(loaded)) => {
+                let got = project(&loaded);
+                fails.extend(diff(&exp, &got));
+            }
+            Ok(Err(e)) => fails.push(("reload/error".to_string(), e)),
+            Err(p) => fails.push((format!("reload/panic:{}", p.site()), p.short())),
         }
-        Ok(Err(e)) => fails.push(("reload/error".to_string(), e)),
-        Err(p) => fails.push((format!("reload/panic:{}", p.site()), p.short())),
-    }
-    let t3 = std::time::Instant::now();
-    file_agrees(&exp, &bytes, &mut fails);
-    if std::env::var("C06_TIMING").is_ok() {
-        eprintln!("timing build+proj {:?} save {:?} load+diff {:?} file {:?} bytes {}", t1 - t0, t2 - t1, t3 - t2, t3.elapsed(), bytes.len());
+        file_agrees(&exp, &bytes, &mut fails);
+        if !fails.is_empty() {
+            break;
+        }
     }
     verdict_of(fails)
+}
+
+fn check(case: &Case, obs: &mut Obs) -> Verdict {
+    check_rounds(case, obs, 1)
+}
+
+fn check_links(case: &Case, obs: &mut Obs) -> Verdict {
+    obs.excluded("worksheet-active-cell/lost");
+    check_rounds(case, obs, 4)
 }
 
 /// Clean strata: the input features of open known findings are left out (and counted).
@@ -1000,6 +1011,10 @@ fn strategy_clean(t: Tier) -> BoxedStrategy<Case> {
     (annot_wb(t, Feat::CLEAN), prop::bool::weighted(0.2)).prop_map(|(wb, light)| Case { wb, light }).boxed()
 }
 
+fn strategy_links(t: Tier) -> BoxedStrategy<Case> {
+    (links_wb(t), prop::bool::weighted(0.2)).prop_map(|(wb, light)| Case { wb, light }).boxed()
+}
+
 fn strategy_dirty(t: Tier) -> BoxedStrategy<Case> {
     (annot_wb(t, Feat::ALL), prop::bool::weighted(0.2)).prop_map(|(wb, light)| Case { wb, light }).boxed()
 }
@@ -1009,8 +1024,15 @@ fn subs() -> Vec<Box<dyn DynSub>> {
         Box::new(Sub {
             name: "roundtrip",
             strategy: strategy_clean,
-            cases: (60, 4000),
+            cases: (250, 6000),
             check: check_clean,
+            max_shrink_iters: 1200,
+        }),
+        Box::new(Sub {
+            name: "hyperlinks",
+            strategy: strategy_links,
+            cases: (150, 3000),
+            check: check_links,
             max_shrink_iters: 1200,
         }),
         Box::new(Sub {
